@@ -55,6 +55,7 @@ type LoopContract struct {
 	Unroll     int
 	Uses       []string
 	Exits      []Clause // asserted (proved, then assumed) on every edge leaving the loop
+	Steps      []Clause // proved on the back edge; may use prev(e) = value of e at the loop head of this iteration
 }
 
 type FuncContract struct {
@@ -260,6 +261,8 @@ func (cs *ContractSet) parseFile(path, pkgPath string) error {
 				lc.Decreases = m[5]
 			case "use":
 				lc.Uses = append(lc.Uses, m[5])
+			case "step":
+				lc.Steps = append(lc.Steps, Clause{Expr: m[5], Props: splitProps(m[3]), File: path, Line: pendLine})
 			case "exit":
 				lc.Exits = append(lc.Exits, Clause{Expr: m[5], Props: splitProps(m[3]), File: path, Line: pendLine})
 			case "unroll":
